@@ -129,7 +129,6 @@ var noInit = map[string]bool{
 	"internal/godebug": true,
 	"testing":          true,
 	"net":              true,
-	"net/http":         true,
 	"crypto/tls":       true,
 	"crypto/x509":      true,
 	"time":             true,
